@@ -196,6 +196,15 @@ pub const HAZARD_NAMES: &[&str] = &[
     "current_user", "assert_rows_modified", "localtimestamp", "session_user", "default", "primary", "references",
     "interval", "timestamp", "natural", "using", "window", "partition", "over", "rows", "range", "distinct", "case",
     "a\\b", "x\\ny", "C:\\t", "tail\\",
+    // words reserved by one dialect only (Redshift): the decision to quote depends on the dialect
+    "tag", "identity", "system", "snapshot", "oid", "encode", "delta", "backup", "offline", "wallet", "permissions",
+    "credentials", "explicit", "deflate", "gzip", "lzo",
+];
+
+/// words reserved in Amazon Redshift and in no other dialect of the compiler (subset; AWS reserved-words list)
+pub const REDSHIFT_ONLY_RESERVED: &[&str] = &[
+    "tag", "identity", "system", "snapshot", "oid", "encode", "delta", "backup", "offline", "wallet", "permissions",
+    "credentials", "explicit", "deflate", "gzip", "lzo",
 ];
 
 impl Names {
